@@ -655,7 +655,7 @@ impl Property for C03 {
         ]
     }
     fn cases(&self, tier: Tier) -> u32 {
-        tier.pick(240_000, 5_000_000)
+        tier.pick(100_000, 5_000_000)
     }
     fn strategy(&self, tier: Tier) -> BoxedStrategy<Case> {
         let size = Size::for_tier(tier);
